@@ -18,6 +18,7 @@ import FwdVerif.Lemmas.H2Size
 import FwdVerif.Lemmas.H2Drain
 import FwdVerif.Lemmas.H2Wire
 import FwdVerif.Model.H2Handoff
+import FwdVerif.Lemmas.H2TableCap
 
 namespace FwdVerif
 namespace C10
@@ -714,6 +715,109 @@ example :
       [.windowUpdate 0 5, .pushPromise 1 2 false (List.replicate 12 ()), .continuation 1 false (List.replicate 16 ()),
        .continuation 1 true (List.replicate 2 ()), .windowUpdate 3 5] := by
   decide
+
+/-! ### HPACK table-size changes: header blocks in flight while SETTINGS_HEADER_TABLE_SIZE changes
+
+  `Model/H2TableCap.lean`: a header block may begin with dynamic table size updates; the relay's
+  decoder refuses one above its limit (`Dir.decoderCap`), and a refused block stops the direction —
+  it is never delivered.  The sender is bound by the setting it has acknowledged, the relay applies
+  the setting when it reads it: between the two, blocks governed by an OLDER value arrive. -/
+
+/-- the decoders' limit is what `newRelay` set, after every schedule (sizes included) -/
+theorem c10_decoder_cap_constant (f6 f7 : Bool) (hist : List (EvS α)) :
+    (Relay.runSized false (Relay.start f6 f7) hist).1.cs.decoderCap = 4294967295 ∧
+    (Relay.runSized false (Relay.start f6 f7) hist).1.sc.decoderCap = 4294967295 := by
+  have h := caps_runSized (Relay.start (α := α) f6 f7) hist
+  simp only [Relay.caps, Relay.start, Prod.mk.injEq] at h
+  exact h
+
+/-- **no header block whose size updates are within ANY value its sender was ever allowed is refused**
+    — the protocol default or any SETTINGS_HEADER_TABLE_SIZE the other endpoint has sent so far,
+    however long ago, whatever it has sent since, acknowledged or not: after every history the
+    decoder of the sender's direction accepts the block and the frame is processed exactly as by the
+    machine all the other theorems are about (`Relay.step`). -/
+theorem c10_in_flight_size_update_accepted (f6 f7 : Bool) (hist : List (EvS α)) (hw : wireSettings hist)
+    (e : EvS α) (he : ∀ u ∈ e.updates, ∃ v ∈ allowedEver e.ev.side hist, u ≤ v) :
+    ((Relay.runSized false (Relay.start f6 f7) hist).1.dir e.ev.side).acceptsBlock e.updates = true ∧
+    (Relay.runSized false (Relay.start f6 f7) hist).1.stepSized false e =
+      (Relay.runSized false (Relay.start f6 f7) hist).1.step e.ev.side e.ev.ord e.ev.op := by
+  have hc := c10_decoder_cap_constant f6 f7 hist
+  have hacc : ((Relay.runSized false (Relay.start f6 f7) hist).1.dir e.ev.side).acceptsBlock e.updates = true := by
+    simp only [Dir.acceptsBlock, List.all_eq_true, Dir.acceptsUpdate, decide_eq_true_eq]
+    intro u hu
+    obtain ⟨v, hv, huv⟩ := he u hu
+    have := allowedEver_lt e.ev.side hist hw v hv
+    cases hs : e.ev.side <;> simp only [Relay.dir, hc.1, hc.2] <;> omega
+  refine ⟨hacc, ?_⟩
+  unfold Relay.stepSized Relay.step
+  cases hs : e.ev.side with
+  | client =>
+    rw [hs] at hacc
+    simp only [stepSized_eq_step _ _ _ _ _ (by simpa [Relay.dir] using hacc)]
+  | server =>
+    rw [hs] at hacc
+    simp only [stepSized_eq_step _ _ _ _ _ (by simpa [Relay.dir] using hacc)]
+
+/-- so a whole schedule with size updates (32-bit values, as the wire carries them) IS a schedule of
+    the machine without them: same outputs, same final state — fidelity, order and delivery
+    (`c10_fifo` … `c10_eventual_delivery_*`) hold "with any HPACK table-size changes". -/
+theorem c10_sized_schedule_is_schedule (f6 f7 : Bool) (es : List (EvS α))
+    (hu : ∀ e ∈ es, ∀ u ∈ e.updates, u < 4294967296) :
+    Relay.runSized false (Relay.start f6 f7) es = Relay.run (Relay.start f6 f7) (es.map (·.ev)) := by
+  suffices h : ∀ (r : Relay α), r.caps = (4294967295, 4294967295) →
+      Relay.runSized false r es = Relay.run r (es.map (·.ev)) from h _ rfl
+  induction es with
+  | nil => intro r _; rfl
+  | cons e t ih =>
+    intro r hr
+    have hacc : ∀ d : Dir α, d.decoderCap = 4294967295 → d.acceptsBlock e.updates = true := by
+      intro d hd
+      simp only [Dir.acceptsBlock, List.all_eq_true, Dir.acceptsUpdate, decide_eq_true_eq, hd]
+      intro u hu'
+      have := hu e (List.mem_cons_self ..) u hu'
+      omega
+    simp only [Relay.caps, Prod.mk.injEq] at hr
+    have hstep : r.stepSized false e = r.step e.ev.side e.ev.ord e.ev.op := by
+      unfold Relay.stepSized Relay.step
+      cases e.ev.side with
+      | client => simp only [stepSized_eq_step _ _ _ _ _ (hacc _ hr.1)]
+      | server => simp only [stepSized_eq_step _ _ _ _ _ (hacc _ hr.2)]
+    have hcaps : (r.stepSized false e).1.caps = (4294967295, 4294967295) := by
+      rw [caps_stepSized]; simp only [Relay.caps, hr.1, hr.2]
+    simp only [Relay.runSized, List.map_cons, Relay.run]
+    rw [ih (fun e' he' => hu e' (List.mem_cons_of_mem _ he')) _ hcaps, hstep]
+
+/-- the server raises SETTINGS_HEADER_TABLE_SIZE to 8192 and lowers it to 1024; the client's request,
+    encoded before the second frame reached it, begins with the size update 8192 -/
+def inFlightExample : List (EvS Unit) :=
+  [ { ev := { side := .server, ord := fun _ => [], op := .settings [(1, 8192)] } },
+    { ev := { side := .server, ord := fun _ => [], op := .settings [(1, 1024)] } },
+    { ev := { side := .client, ord := fun _ => [], op := .headers 1 true true {} [(), ()] [(), (), ()] },
+      updates := [8192] } ]
+
+/-- **witness**: a relay whose decoder limit follows the relayed setting ("the source must not signal
+    a larger table than it was told": `capFollows`) refuses that request — the client-to-server
+    direction stops, nothing is delivered — although 8192 is a value the client was allowed; the relay
+    as it is delivers it at once. -/
+theorem c10_cap_follows_setting_witness :
+    (∀ u ∈ [8192], ∃ v ∈ allowedEver .client (inFlightExample.take 2), u ≤ v) ∧
+    ((Relay.runSized true (Relay.startCap true false false) inFlightExample).2.map
+        fun x => (x.2.2.fatal, x.2.2.fwd)) = [(false, []), (false, []), (true, [])] ∧
+    (Relay.runSized true (Relay.startCap true false false) inFlightExample).1.cs.dead = true ∧
+    ((Relay.runSized false (Relay.start false false) inFlightExample).2.map
+        fun x => (x.2.2.fatal, x.2.2.fwd)) =
+      [(false, []), (false, []), (false, [.headers 1 true {} [[(), (), ()]] 0])] ∧
+    (Relay.runSized false (Relay.start false false) inFlightExample).1.cs.dead = false := by
+  decide
+
+-- a history in which the hypotheses of `c10_in_flight_size_update_accepted` hold with an update above
+-- the value in force (1024) and above the default: 8192 was allowed once
+example : wireSettings (inFlightExample.take 2) ∧
+    (∀ u ∈ [8192], ∃ v ∈ allowedEver .client (inFlightExample.take 2), u ≤ v) := by
+  refine ⟨?_, by decide⟩
+  intro e he v hv
+  simp only [inFlightExample, List.take, List.mem_cons, List.not_mem_nil, or_false] at he
+  rcases he with rfl | rfl <;> simp [tableSizesOf, settingHeaderTableSize] at hv <;> omega
 
 end C10
 end FwdVerif
